@@ -227,6 +227,10 @@ class Interp:
         if op == "!=": return not equal(a, b, self)
         return compare(op, a, b)
     def meta_binop(self, op, a, b):
+        # == and != (derived from @==) of an object on the left are modelled here, the remaining dispatch grid is C17's
+        if op in ("==", "!=") and isinstance(a, KMap) and a.meta is not None and "@==" in a.meta and "@!=" not in a.meta and b is not None:
+            r = truthy_bool(self.call(a.meta["@=="], [b], self_value=a))
+            return r if op == "==" else not r
         raise ModelLimit("metamap operators are modelled by the object model (C17)")
     def e_cmpchain(self, n, env):
         vals = [self.ev(n[1][0], env)]
@@ -328,6 +332,12 @@ class Interp:
         return self.builtin_method(obj, name, args)
     def e_pipe(self, n, env):
         a = self.ev(n[1], env)
+        if n[2][0] == "access":
+            # piping into a member is a method call: the container is self
+            obj = self.ev(n[2][1], env)
+            f = self.access(obj, n[2][2])
+            rest = self.eval_args(n[3], env)
+            return self.call(f, [a] + rest, self_value=obj)
         f = self.ev(n[2], env)
         rest = self.eval_args(n[3], env)
         return self.call(f, [a] + rest)
